@@ -3,7 +3,7 @@
    (AddToFlatten, AllFlattenData) and Flatten::Apply over UTF-16 code units as
    ICU's UnicodeString holds them.  u_isspace is a parameter (ICU).  Also the
    UTF-8 <-> UTF-16 conversions on well-formed text.  Model only. *)
-From PP Require Export Base.Bytes Gen.Src_flatten.
+From PP Require Export Base.Bytes Gen.Src_flatten Unicode.Utf8Enc.
 From PP Require Import Fold.FoldDefs.
 Local Open Scope Z_scope.
 
@@ -45,33 +45,6 @@ Fixpoint cps_of_utf16 (l : list Z) : list Z :=
     | [] => [u]
     end
   end.
-
-(* ---------- UTF-8 (well-formed input only; the scanner is the one of Fold/FoldDefs.v) ---------- *)
-Fixpoint cps_of_utf8_fuel (fuel : nat) (bs : list Z) : option (list Z) :=
-  match bs with
-  | [] => Some []
-  | _ =>
-    match fuel with
-    | O => None
-    | S f =>
-      match decode_utf8 bs with
-      | None => None
-      | Some (c, n) =>
-        match cps_of_utf8_fuel f (skipn (Z.to_nat n) bs) with
-        | Some r => Some (c :: r)
-        | None => None
-        end
-      end
-    end
-  end.
-Definition cps_of_utf8 (bs : list Z) : option (list Z) := cps_of_utf8_fuel (length bs) bs.
-
-Definition utf8_of_cp (c : Z) : list Z :=
-  if c <? 128 then [c]
-  else if c <? 2048 then [192 + c / 64; 128 + c mod 64]
-  else if c <? 65536 then [224 + c / 4096; 128 + (c / 64) mod 64; 128 + c mod 64]
-  else [240 + c / 262144; 128 + (c / 4096) mod 64; 128 + (c / 64) mod 64; 128 + c mod 64].
-Definition utf8_of_cps (cs : list Z) : list Z := flat_map utf8_of_cp cs.
 
 (* UnicodeString::fromUTF8 / toUTF8String on well-formed text *)
 Definition from_utf8 (bs : list Z) : option (list Z) :=
@@ -125,13 +98,6 @@ Definition add_to_flatten (d : flatdata) (tbl : list (list Z * list Z) * bool) :
 
 Definition build_flatten (ops : list (list (list Z * list Z) * bool)) : flatdata :=
   fold_left add_to_flatten ops [].
-
-Fixpoint bytes_eqb (a b : list Z) : bool :=
-  match a, b with
-  | [], [] => true
-  | x :: a', y :: b' => (x =? y) && bytes_eqb a' b'
-  | _, _ => false
-  end.
 
 (* LookupFlatten: None = UnsupportedLanguageException *)
 Fixpoint find_language (langs : list (list Z * list (list (list Z * list Z) * bool))) (l : list Z) : option flatdata :=
